@@ -86,16 +86,19 @@ theorem runT_given (sh : IdLookup) : ∀ (ops : List OpT) (s : StT),
       cases storedId sh oid <;> exact List.Sublist.refl _
 
 /-- **the texts of the final state are fit when the supplied ones are**: pairwise different, ids, none of them the
-library-made id of an entity of the final forest; those library-made ids are pairwise different ids; nobody named
+library-made id of a section of the final forest; those library-made ids (of the sections whose id was not
+supplied) are pairwise different ids; nobody named
 like an id in the final forest -/
 theorem suppliedOK_of_history (sh : IdLookup) (gen : Nat → String) (ops : List OpT)
-    (genOK : ∀ a ∈ keysL (runT sh {} ops).f.sections, uuidAccepts (gen a) = true ∧
-      ∀ b ∈ keysL (runT sh {} ops).f.sections, gen a = gen b → a = b)
+    (genOK : ∀ a ∈ keysL (runT sh {} ops).f.sections, (runT sh {} ops).given.lookup a = none →
+      uuidAccepts (gen a) = true ∧
+      ∀ b ∈ keysL (runT sh {} ops).f.sections, (runT sh {} ops).given.lookup b = none → gen a = gen b → a = b)
     (hnd : (suppliedTexts sh ops).Nodup)
     (hu : ∀ t ∈ suppliedTexts sh ops, uuidAccepts t = true ∧
-      ∀ a ∈ keysL (runT sh {} ops).f.sections, t ≠ gen a)
+      ∀ a ∈ keysL (runT sh {} ops).f.sections, (runT sh {} ops).given.lookup a = none → t ≠ gen a)
     (hn : ∀ n ∈ nodesL (runT sh {} ops).f.sections,
-      (∀ a ∈ keysL (runT sh {} ops).f.sections, n.name ≠ gen a) ∧ ∀ t ∈ suppliedTexts sh ops, n.name ≠ t) :
+      (∀ a ∈ keysL (runT sh {} ops).f.sections, (runT sh {} ops).given.lookup a = none → n.name ≠ gen a) ∧
+      ∀ t ∈ suppliedTexts sh ops, n.name ≠ t) :
     SuppliedOK (runT sh {} ops).given gen (runT sh {} ops).f.sections := by
   have hsub := runT_given sh ops {}
   simp only [List.map_nil, List.append_nil] at hsub
@@ -103,8 +106,8 @@ theorem suppliedOK_of_history (sh : IdLookup) (gen : Nat → String) (ops : List
     intro k t h
     exact List.mem_reverse.mp (hsub.subset (List.mem_map.mpr ⟨(k, t), h, rfl⟩))
   exact
-    { genInj := fun a ha => (genOK a ha).2
-      genUuid := fun a ha => (genOK a ha).1
+    { genInj := fun a ha hla => (genOK a ha hla).2
+      genUuid := fun a ha hla => (genOK a ha hla).1
       givenUuid := fun k t h => (hu t (hmem k t h)).1
       givenNodup := List.Nodup.sublist hsub (List.pairwise_reverse.mpr (List.Pairwise.imp (fun h => Ne.symm h) hnd))
       sep := fun k t h => (hu t (hmem k t h)).2
